@@ -1,3 +1,5 @@
 import PfVerif.Audit.Tool
 import PfVerif.Props.C20
+import PfVerif.Lemmas.C20Module
 #audit_module PfVerif.Props.C20
+#audit_module_ns PfVerif.Lemmas.C20Module PfVerif.C20Module
